@@ -60,31 +60,50 @@ class RefMesh:
         return RefMesh(self.n_t, self.n_x, self.glued, set(self.leaves))
 
     # -- geometry -----------------------------------------------------------------------------
+    def _index(self):
+        """Leaves bucketed by the coordinate of each of their four sides (rebuilt when the leaf set changed)."""
+        sig = (len(self.leaves), id(self.leaves))
+        if getattr(self, '_idx_sig', None) != sig or getattr(self, '_idx_n', -1) != len(self.leaves):
+            idx = {0: {}, 1: {}, 2: {}, 3: {}}
+            for b in self.leaves:
+                idx[0].setdefault(b.t0, []).append(b)
+                idx[2].setdefault(b.t1, []).append(b)
+                idx[3].setdefault(b.x0, []).append(b)
+                idx[1].setdefault(b.x1, []).append(b)
+            self._idx, self._idx_sig, self._idx_n = idx, sig, len(self.leaves)
+        return self._idx
+
     def side_neighbours(self, a, side):
         """Leaves sharing a piece of positive length of side `side` of a.
         side: 0 = bottom (t = t0), 1 = right (x = x1), 2 = top (t = t1), 3 = left (x = x0)
         (the edge numbering of src/mesh.py's Element.edges, used here only as labels)."""
+        idx = self._index()
         out = []
-        for b in self.leaves:
+        L = self.n_x * SCALE
+        if side == 0:
+            cands = idx[2].get(a.t0, [])
+        elif side == 2:
+            cands = idx[0].get(a.t1, [])
+        elif side == 1:
+            cands = list(idx[3].get(a.x1, []))
+            if self.glued and a.x1 == L:
+                cands += idx[3].get(0, [])
+        else:
+            cands = list(idx[1].get(a.x0, []))
+            if self.glued and a.x0 == 0:
+                cands += idx[1].get(L, [])
+        for b in cands:
             if b is a or b == a:
                 # a leaf spanning the whole closed curve meets itself through the identified seam
-                if self.glued and side in (1, 3) and a.x0 == 0 and a.x1 == self.n_x * SCALE:
+                if self.glued and side in (1, 3) and a.x0 == 0 and a.x1 == L:
                     out.append(b)
                 continue
             if side in (0, 2):
-                line_a = a.t0 if side == 0 else a.t1
-                line_b = b.t1 if side == 0 else b.t0
-                if line_a == line_b and min(a.x1, b.x1) > max(a.x0, b.x0):
+                if min(a.x1, b.x1) > max(a.x0, b.x0):
                     out.append(b)
             else:
-                if min(a.t1, b.t1) <= max(a.t0, b.t0):
-                    continue
-                if side == 1:
-                    if a.x1 == b.x0 or (self.glued and a.x1 == self.n_x * SCALE and b.x0 == 0):
-                        out.append(b)
-                else:
-                    if a.x0 == b.x1 or (self.glued and a.x0 == 0 and b.x1 == self.n_x * SCALE):
-                        out.append(b)
+                if min(a.t1, b.t1) > max(a.t0, b.t0):
+                    out.append(b)
         return out
 
     def on_param_boundary(self, a, side):
@@ -118,17 +137,18 @@ class RefMesh:
         return bad
 
     def is_tiling(self):
-        """Exact area + pairwise disjointness in index space."""
+        """Exact area + pairwise disjointness in index space (sweep over x with the active leaves)."""
         area = sum((r.t1 - r.t0) * (r.x1 - r.x0) for r in self.leaves)
         if area != self.n_t * self.n_x * SCALE * SCALE:
             return False
-        ls = list(self.leaves)
-        for p in range(len(ls)):
-            a = ls[p]
-            for q in range(p + 1, len(ls)):
-                b = ls[q]
-                if min(a.t1, b.t1) > max(a.t0, b.t0) and min(a.x1, b.x1) > max(a.x0, b.x0):
+        events = sorted(self.leaves, key=lambda r: (r.x0, r.t0))
+        active = []
+        for a in events:
+            active = [b for b in active if b.x1 > a.x0]
+            for b in active:
+                if min(a.t1, b.t1) > max(a.t0, b.t0):
                     return False
+            active.append(a)
         return True
 
     # -- the closure rule ---------------------------------------------------------------------
@@ -149,6 +169,7 @@ class RefMesh:
 
     def apply(self, S):
         """Bisect every (leaf, ax) of S (a leaf may be in S for both axes -> four quarters)."""
+        self._idx_sig = None  # adjacency index is stale after this
         by_leaf = {}
         for (a, ax) in S:
             by_leaf.setdefault(a, set()).add(ax)
